@@ -463,4 +463,62 @@ theorem visited_names_below (names : List Seg) (hn : ∀ n ∈ names, IsName n) 
       rw [hw] at hq
       exact List.IsPrefix.trans (List.prefix_append p [n]) (ih (fun x hx => hn x (by simp [hx])) _ q hq)
 
+/-! ### the converse: what is inside is accepted -/
+
+theorem stripCommon_prefix (a r : List Seg) : stripCommon a (a ++ r) = ([], r) := by
+  induction a with
+  | nil => cases r <;> simp [stripCommon]
+  | cons x a ih => simp [stripCommon, ih]
+
+/-- a relative path whose first element is a slash-free name other than `..` passes
+    `isSubpath`'s string test -/
+theorem joinSep_name_ok (n : Seg) (rest : List Seg) (h1 : n ≠ []) (h2 : n ≠ dotdot) (h3 : 47 ∉ n) :
+    hasUpPrefix (joinSep (n :: rest)) = false ∧ joinSep (n :: rest) ≠ dotdot := by
+  match n, rest with
+  | [], _ => exact absurd rfl h1
+  | [a], [] => simp [joinSep, hasUpPrefix, dotdot]
+  | [a], t :: r => simp [joinSep, hasUpPrefix, dotdot]
+  | [a, c], [] =>
+    simp only [joinSep, hasUpPrefix, dotdot] at *
+    simp
+    intro ha hc; exact h2 (by simp [ha, hc])
+  | [a, c], t :: r =>
+    simp only [joinSep, hasUpPrefix, dotdot] at *
+    simp
+    intro ha hc; exact h2 (by simp [ha, hc])
+  | a :: c :: d :: m, [] =>
+    have hd : d ≠ 47 := by intro e; apply h3; simp [e]
+    simp [joinSep, hasUpPrefix, dotdot, hd]
+  | a :: c :: d :: m, t :: r =>
+    have hd : d ≠ 47 := by intro e; apply h3; simp [e]
+    simp [joinSep, hasUpPrefix, dotdot, hd]
+
+/-- the converse of `relSegs_accepted`: what lies inside the root is accepted -/
+theorem inside_isSubpath (root sub : Str) (h : inside root sub) : isSubpath root sub = (true, true) := by
+  obtain ⟨hroot, r, hseg, h1, h2, h3⟩ := h
+  have hgood := cleanP_good sub
+  unfold isSubpath relStr relSegs
+  by_cases heq : cleanP root = cleanP sub
+  · simp [heq, joinSep, hasUpPrefix, dot, dotdot]
+  · have hr : r ≠ [] := by
+      intro hr
+      apply heq
+      rw [hr, List.append_nil] at hseg
+      cases hc : cleanP root; cases hs : cleanP sub
+      rw [hc, hs] at hroot hseg
+      simp only at hroot hseg
+      rw [hroot, hseg]
+    have hne : (cleanP sub).segs ≠ [] := by
+      rw [hseg]; intro hnil; exact hr (List.append_eq_nil_iff.mp hnil).2
+    have ht : targElems (cleanP sub) = (cleanP root).segs ++ r := by
+      unfold targElems
+      rw [if_neg (fun hc => hne hc.2), hseg]
+    simp only [heq, if_false, hroot, ne_eq, not_true_eq_false, ht, stripCommon_prefix]
+    cases r with
+    | nil => exact absurd rfl hr
+    | cons n rest =>
+      have hn := good_suffix_names (cleanP sub) hgood (cleanP root).segs (n :: rest) hseg
+        (by simp only [List.head?_cons, ne_eq, Option.some.injEq]; intro e; exact h1 (by simp [e])) n (by simp)
+      obtain ⟨ha, hb⟩ := joinSep_name_ok n rest hn.1.1 hn.1.2.2 hn.2
+      simp [ha, hb]
 end Ecal.Path
